@@ -39,6 +39,16 @@ Theorem C02_args_values_satisfy : forall ms pos kws a kw,
 Proof. exact C02_args_main. Qed.
 Print Assumptions C02_args_values_satisfy.
 
+(* "streams that use back-references to smuggle an earlier object of the wrong shape": a reference -- to an earlier
+   complete object o, or (o = OPending k) to an enclosing tuple that is still open and only known as a Deferred -- gets
+   into a constrained slot only if checkObject of that slot's constraint accepts the referenced object.  On the answer
+   path this is the ONLY enforcement for references (shape fact reference_rechecks_object: the check is reached on every
+   path of ReferenceUnslicer.receiveChild). *)
+Theorem C02_reference_checked : forall c o v,
+  recvw (Some c) (WRef o) = RDeliver v -> v = o /\ checkObject c o = true.
+Proof. exact reference_checked. Qed.
+Print Assumptions C02_reference_checked.
+
 (* "likewise the value handed to a callRemote callback always satisfies the result constraint":
      forall c w v, recv_answer (Some c) w = Callback v -> checkObject c v = true
    is FALSE on the current tree (known finding D6, oracle/result-unchecked): AnswerUnslicer hands the value to
